@@ -53,13 +53,19 @@ FollowContent(id) == IF id = "fc" THEN <<T2(99, 49)>> ELSE Content(id)
 \*   second  SELECT y FROM u   (a second table of the definition file: first character of each non-empty line)
 FromOf(q) == CASE q = "from" -> "fc" [] q = "frommissing" -> "missing" [] OTHER -> "none"
 ColOf(q) == CASE q = "count" -> <<110>> [] q = "second" -> <<121>> [] OTHER -> <<120>>        \* n / y / x
-Rows(q, lines) ==
+\*   parsetrunc / parsetrunc2   a statement cut off at its end, the text ending in one / two line breaks (the error lies at the very end of the text)
+\*   commentsemi   SELECT x -- first; column <LF> FROM t -- all; of them <LF> LIMIT 1      (a `;` inside a comment ends nothing)
+\*   trailnl       SELECT x FROM t LIMIT 2; <LF>
+ParseBad(q) == q \in {"parsebad", "parsetrunc", "parsetrunc2"}
+Norm(q) == CASE q = "commentsemi" -> "limit1" [] q = "trailnl" -> "limit2" [] OTHER -> q
+Rows(q0, lines) ==
+  LET q == Norm(q0) IN
   CASE q = "count" -> IF lines = <<>> THEN <<>> ELSE <<<<IntV(Len(lines))>>>>
     [] q = "limit1" -> IF lines = <<>> THEN <<>> ELSE <<<<lines[1]>>>>
     [] q = "limit2" -> [i \in 1..(IF Len(lines) < 2 THEN Len(lines) ELSE 2) |-> <<lines[i]>>]
     [] q = "second" -> [i \in 1..Len(lines) |-> <<TextV(<<lines[i].s[1]>>)>>]
     [] OTHER -> [i \in 1..Len(lines) |-> <<lines[i]>>]
-Consumed(q, lines) == IF q = "limit1" /\ lines # <<>> THEN 1 ELSE IF q = "limit2" /\ Len(lines) >= 2 THEN 2 ELSE Len(lines)          \* LIMIT stops reading (C07)
+Consumed(q0, lines) == LET q == Norm(q0) IN IF q = "limit1" /\ lines # <<>> THEN 1 ELSE IF q = "limit2" /\ Len(lines) >= 2 THEN 2 ELSE Len(lines)          \* LIMIT stops reading (C07)
 
 VARIABLES files, query, defs, format, usestdin, stats, cmdsrc,     \* the environment's choices
           follow,            \* -f --head: FollowFileExecutor on the FIRST chosen file only, from its first byte; ends when LIMIT is reached
@@ -83,19 +89,20 @@ Init ==
   /\ (stats => ~usestdin)                       \* keep the product small: the two flags are independent in the code
   /\ follow \in BOOLEAN
   \* a followed file is never "finished": only runs that end by themselves are modelled -- a LIMIT that the first file can satisfy
-  /\ follow => /\ query \in {"limit1", "limit2"} /\ ~usestdin /\ ~stats /\ defs \in {"ok", "two"}
-               /\ files # <<>> /\ Len(FollowContent(files[1])) >= (IF query = "limit1" THEN 1 ELSE 2)
+  /\ follow => /\ query \in {"limit1", "limit2", "commentsemi", "trailnl"} /\ ~usestdin /\ ~stats /\ defs \in {"ok", "two"}
+               /\ files # <<>> /\ Len(FollowContent(files[1])) >= (IF Norm(query) = "limit1" THEN 1 ELSE 2)
   /\ pc = "defs" /\ chosen = <<>> /\ out = <<>> /\ exit = 0
 
 LoadDefs ==
   /\ pc = "defs"
-  /\ IF defs = "bad" THEN /\ out' = <<Msg("deferr")>> /\ exit' = 1 /\ pc' = "done"
+  \* "bad": the file is cut off;  "twobad": two tables of which the second has a pattern that is no regular expression;  "nosemi": the final `;` is missing
+  /\ IF defs \in {"bad", "twobad", "nosemi"} THEN /\ out' = <<Msg("deferr")>> /\ exit' = 1 /\ pc' = "done"
      ELSE /\ pc' = "parse" /\ UNCHANGED <<out, exit>>
   /\ UNCHANGED <<cvars, chosen>>
 
 ParseCmd ==
   /\ pc = "parse"
-  /\ IF query = "parsebad" THEN /\ out' = <<Msg("parseerr")>> /\ pc' = "done"
+  /\ IF ParseBad(query) THEN /\ out' = <<Msg("parseerr")>> /\ pc' = "done"
      ELSE IF query = "create" THEN /\ pc' = "done" /\ UNCHANGED out           \* the table is added; nothing is printed
      ELSE /\ pc' = "choose" /\ UNCHANGED out
   /\ UNCHANGED <<cvars, chosen, exit>>
@@ -149,7 +156,7 @@ FilesInOrder ==
          RECURSIVE cat(_) cat(i) == IF i = 0 THEN <<>> ELSE cat(i - 1) \o Content(src[i])
      IN [i \in 1..Len(Records) |-> Records[i].row[1]] = cat(Len(src))
 \* a message and records never mix; at most one message; only a bad definition file changes the exit status
-MessageOrRecords == Done => (Len(Messages) <= 1 /\ (Messages # <<>> => Records = <<>>) /\ (exit = 1 <=> defs = "bad"))
+MessageOrRecords == Done => (Len(Messages) <= 1 /\ (Messages # <<>> => Records = <<>>) /\ (exit = 1 <=> defs \in {"bad", "twobad", "nosemi"}))
 \* C17: one CSV header, before the first record, only when there is a record
 HeaderOnce == Done => LET h == SelectSeq(out, LAMBDA o : o.k = "hdr")
                       IN IF format = "csv" /\ Records # <<>> THEN Len(h) = 1 /\ out[1].k = "hdr" ELSE h = <<>>
